@@ -243,6 +243,7 @@ def run(prog, chk):
                     chk.ok("C06.g", f, "argument %d of %s is not own text" % (k, f.nodes[c]["callee"]), f.where(c), t[:40])
     R.exclusive_guard(prog, chk, "C06.b", ("String",), floor=4)
     formatted_length(prog, chk, fs)
+    join_alternation(prog, chk, "C06.i")
 
 
 def formatted_length(prog, chk, fs):
@@ -291,3 +292,84 @@ def formatted_length(prog, chk, fs):
                 chk.bad("C06.h", f, "formatted-length-accepted-beyond-buffer", f.where(s.node),
                         "`%s` stores the value returned by vsnprintf(dst, %s, ...) as the length although the dominating tests (%s) do not establish "
                         "it is below %s: vsnprintf wrote only %s - 1 characters, the String reports a length whose last byte is the terminator" % (f.r(s.node)[:50], S, facts, S, S))
+
+
+def join_alternation(prog, chk, rid):
+    """typestate over String::join: along every path the appends alternate token, separator, token, ..., token.
+    states: S0 nothing appended yet, ST last append was a token, SS last append was the separator.  Branch conditions are taken as
+    non-deterministic (token values are arbitrary, e.g. empty) except bool locals (tracked) and comparisons of the loop iterator with
+    begin() (true exactly in S0)."""
+    from .. import fin
+    chk.rule(rid, "typestate: in String::join every path appends token (separator token)*: one separator between any two tokens whatever the "
+                  "tokens contain, none before the first or after the last", floor=1)
+    fs = [f for f in prog.functions.values() if f.name == "String::join" and f.file.endswith("String.cpp")]
+    if not fs:
+        raise AnalysisBroken("String::join not found")
+    f = fs[0]
+    sep = [p for p in f.params if p["t"] in ("char", "const char")]
+    if not sep:
+        raise AnalysisBroken("String::join: separator parameter not found")
+    sep = sep[0]["n"]
+    flags = sorted(d["n"] for n in f.nodes if n["k"] == "DeclStmt" for d in n["decls"] if d.get("t") == "bool")
+    errors = []
+
+    def transfer(st, e):
+        if not isinstance(e, int):
+            return st
+        n = f.nodes[e]
+        out = set()
+        for (s, fl) in st:
+            if n["k"] == "CXXMemberCallExpr" and re.match(r"^this->append\(", f.r(e)) or (n["k"] == "CXXOperatorCallExpr" and re.match(r"^\(?\*?this \+= ", f.r(e))):
+                a = q.call_args(f, e)
+                arg = q.no_casts(f.r(a[-1])) if a else ""
+                if arg == sep:
+                    if s != "ST":
+                        errors.append((e, "a separator is appended %s" % ("before the first token" if s == "S0" else "twice in a row")))
+                    s = "SS"
+                else:
+                    if s == "ST":
+                        errors.append((e, "two tokens are appended with no separator between them"))
+                    s = "ST"
+            elif n["k"] == "CXXMemberCallExpr" and f.r(e) == "this->clear()":
+                s = "S0"
+            elif n["k"] == "DeclStmt":
+                for d in n["decls"]:
+                    if d["n"] in flags and d.get("init") is not None:
+                        v = fin.eval_expr(f, d["init"], {})
+                        fl = tuple(((bool(v) if v is not None else None) if nm == d["n"] else x) for nm, x in zip(flags, fl))
+            elif n["k"] == "BinaryOperator" and n["op"] == "=" and f.r(n["c"][0]) in flags:
+                v = fin.eval_expr(f, n["c"][1], {})
+                fl = tuple(((bool(v) if v is not None else None) if nm == f.r(n["c"][0]) else x) for nm, x in zip(flags, fl))
+            out.add((s, fl))
+        return frozenset(out)
+
+    def refine(st, blk, k):
+        c = blk.get("cond")
+        res = set(st)
+        if c is None or len(blk["succ"]) != 2:
+            return frozenset(res)
+        for a, truth in q.cond_atoms(f, c, k == 0):
+            t = q.no_casts(f.r(a))
+            if t in flags:
+                i = flags.index(t)
+                res = set(x for x in res if x[1][i] is None or x[1][i] == truth)
+            m = re.match(r"^\((\w+) (==|!=) \w+\.begin\(\)\)$", t) or re.match(r"^\(\w+\.begin\(\) (==|!=) (\w+)\)$", t)
+            if m:
+                eq = "==" in t
+                at_begin = truth if eq else not truth
+                res = set(x for x in res if (x[0] == "S0") == at_begin)
+        return frozenset(res) if res else None
+
+    init = frozenset({("S0", tuple(None for _ in flags))})
+    sin, sat = q.forward(f, init, transfer, refine, lambda a, b: a | b)
+    ex = sin.get(f.exit) or frozenset()
+    where = "%s:%s" % (f.file, f.line)
+    if any(s == "SS" for s, _fl in ex):
+        errors.append((None, "the function can return right after appending a separator (trailing separator)"))
+    if errors:
+        e, why = errors[0]
+        chk.bad(rid, f, "join-separator-discipline", f.where(e) if e is not None else where,
+                "String::join: %s on some path through the loop (branches that depend on the text, such as `isEmpty()`, are taken both ways: "
+                "tokens may be empty): join([\"\", \"a\"], '.') must be \".a\"" % why, evals=len(sat))
+    else:
+        chk.ok(rid, f, "appends alternate token / separator on every path", where, "%d program points, exit states %s" % (len(sat), sorted(set(s for s, _ in ex))), evals=len(sat))
